@@ -50,6 +50,41 @@ def obligation_id(f):
     return "%s :: %s :: %s" % (f["site_item"], f["message"], re.sub(r"\s+", " ", f["clause"])[:160])
 
 
+def validate_sqlite_oracles():
+    """The hand-written SQLite oracles (string literal, quoted identifier, blob literal lexers of replay/src/lexers.rs - the
+    executable copies of the spec functions in units escape / ident) against a REAL SQLite engine (python's sqlite3): every
+    token the oracle accepts, over a 10-symbol alphabet up to length 5, must be accepted by the engine with the same value.
+    Returns (note, mismatches)."""
+    try:
+        import sqlite3
+    except Exception as e:
+        return "sqlite3 module unavailable: %s" % e, []
+    rc, out, err = sh([REPLAY_BIN, "oracle-sqlite"], timeout=120)
+    if rc != 0:
+        return "vreplay oracle-sqlite failed", []
+    con = sqlite3.connect(":memory:")
+    n, bad = 0, []
+    for ln in out.splitlines():
+        try:
+            c = json.loads(ln)
+        except Exception:
+            continue
+        n += 1
+        tok, want = c["token"], c["value"]
+        try:
+            if c["kind"] == "string":
+                got = con.execute("SELECT " + tok).fetchone()[0]
+            elif c["kind"] == "blob":
+                got = con.execute("SELECT " + tok).fetchone()[0].hex()
+            else:
+                got = con.execute("SELECT 1 AS " + tok).description[0][0]
+        except Exception as e:
+            got = "<engine error: %s>" % e
+        if got != want:
+            bad.append("%s token %r: oracle %r, SQLite %s says %r" % (c["kind"], tok, want, sqlite3.sqlite_version, got))
+    return "%d SQLite tokens (string / identifier / blob) decoded identically by the oracle and SQLite %s" % (n - len(bad), sqlite3.sqlite_version), bad
+
+
 def witness_search(prop, f, timeout=120):
     """returns (witnesses:list[dict], note)"""
     if not os.path.exists(REPLAY_BIN):
@@ -189,6 +224,11 @@ def check(prop, tier, seed):
         trusted_note = out.strip().splitlines()[-1] if out.strip() else "no output"
         if rc != 0:
             undecided.append("trusted std fact mismatch: " + trusted_note)
+        if prop in ("C03", "C04"):
+            onote, obad = validate_sqlite_oracles()
+            trusted_note += " ; oracle validation: " + onote
+            if obad:
+                undecided.append("SQLite oracle disagrees with the engine (the ORACLE is wrong, not the code): " + "; ".join(obad[:3]))
     else:
         # the real crate (or the replay crate) does not build: nothing can be replayed; proofs are still valid
         trusted_note = "replay crate did not build: " + replay_err[-300:]
